@@ -10,6 +10,7 @@ package main
 import (
 	"bytes"
 	"fmt"
+	"net"
 	"sync"
 	"testing"
 	"time"
@@ -411,3 +412,119 @@ func TestVerif_C03_obfs4inner(t *testing.T) {
 	}
 }
 
+
+// Real-time tier: the same probes over net.Pipe with the wall clock (no virtual time), many at a
+// time because they only wait. Cross-checks the virtual-clock model: the handler must not return
+// (=> close) before 5 s of real time, must return by ~10 s, and the peer must never receive a byte.
+type c03PipeConn struct {
+	net.Conn
+	remote net.Addr
+}
+
+func (c c03PipeConn) RemoteAddr() net.Addr { return c.remote }
+
+func TestVerif_C03_realtime(t *testing.T) {
+	rec := vh.NewRec("C03", "realtime", "probes from the 'probes' generator (without pauses) written segment by segment into a net.Pipe whose other end is handed to handleNewTCPConn, all running concurrently in real time; oracle: handler returns after >= 5 s and <= 12 s, the prober receives nothing before that; non-trivial as in 'probes'; distinct by case")
+	defer rec.Flush()
+	defer aSilenceStdout()()
+	if vh.ReplayFile() != "" {
+		t.Skip("real-time tier is not replayable")
+	}
+	n := vh.Pick(24, 240)
+	_, shards := vh.Shard()
+	n = (n + shards - 1) / shards
+	type item struct {
+		c   c03Case
+		e   *aEnv
+		key string
+		msg string
+	}
+	var items []*item
+	ge := aNewEnv(t)
+	left := n
+	rapid.Check(t, func(rt *rapid.T) {
+		if left <= 0 {
+			return
+		}
+		c := c03Gen(rt, ge)
+		if c.Total > 20000 {
+			return
+		}
+		left--
+		items = append(items, &item{c: c})
+	})
+	var wg sync.WaitGroup
+	for _, it := range items {
+		e := aNewEnv(t)
+		if _, err := c03Setup(e, it.c); err != nil {
+			t.Fatalf("harness problem: %v", err)
+		}
+		it.e = e
+		wg.Add(1)
+		go func(it *item) {
+			defer wg.Done()
+			cli, srv := net.Pipe()
+			defer cli.Close()
+			remote, _ := net.ResolveTCPAddr("tcp", it.c.Script.Remote)
+			start := time.Now()
+			done := make(chan any, 1)
+			go func() {
+				defer func() { done <- recover() }()
+				it.e.cm.handleNewTCPConn(it.e.rm, c03PipeConn{Conn: srv, remote: remote}, aPhantom(0, it.c.V6))
+				srv.Close() // what handleNewConn does when the handler returns
+			}()
+			// prober: write the segments, then listen
+			go func() {
+				for _, st := range it.c.Script.Reads {
+					_ = cli.SetWriteDeadline(time.Now().Add(11 * time.Second))
+					if _, err := cli.Write(st.Data); err != nil {
+						return
+					}
+				}
+			}()
+			got := make(chan int, 1)
+			go func() {
+				buf := make([]byte, 64)
+				total := 0
+				for {
+					k, err := cli.Read(buf)
+					total += k
+					if err != nil {
+						got <- total
+						return
+					}
+				}
+			}()
+			select {
+			case p := <-done:
+				el := time.Since(start)
+				if p != nil {
+					it.key, it.msg = "panic", fmt.Sprintf("handler panicked: %v", p)
+				} else if el < 4950*time.Millisecond {
+					it.key, it.msg = "early-return", fmt.Sprintf("handler returned (=> close) after %v of real time (< 5 s)", el)
+				}
+			case <-time.After(14 * time.Second):
+				it.key, it.msg = "harness", "handler still running after 14 s"
+				return
+			}
+			select {
+			case k := <-got:
+				if k > 0 && it.key == "" {
+					it.key, it.msg = "wrote-bytes", fmt.Sprintf("the prober received %d byte(s)", k)
+				}
+			case <-time.After(3 * time.Second):
+			}
+		}(it)
+	}
+	wg.Wait()
+	for _, it := range items {
+		on := it.e.rm.CountRegistrations(aPhantom(0, it.c.V6))
+		rec.Case(on > 0 && it.c.Total >= 32, vh.Digest(it.c), it.c, "kind:"+it.c.Kind)
+		if it.key == "harness" {
+			t.Fatalf("harness problem: %s", it.msg)
+		}
+		if it.key != "" {
+			rec.Violation(t, it.key, it.c, "%s (real-time tier, probe kind %s, %d bytes)", it.msg, it.c.Kind, it.c.Total)
+		}
+	}
+}
